@@ -764,7 +764,8 @@ class Exec:
                     raise Unsupported(f"loop {ordinal} invariant #{k}: {e}")
                 self.oblige(f"loop{ordinal}:inv#{k}:{where}", g, st=s, note=spec["invariant"][k])
 
-        # 1. invariants hold on entry
+        # 1. invariants hold on entry (after the ghost lemma instances placed at the loop entry)
+        st = self.ghost_calls(spec.get("entry_calls", []), st)
         check_invs(st, "entry")
         # 2. havoc
         names, heapkeys, trace = self.havoc_set(node, it)
@@ -1941,6 +1942,10 @@ def fresh_locals(fd) -> set:
             if isinstance(t, ast.Name):
                 (good if _fresh_expr(v) else bad).add(t.id)
             elif isinstance(t, (ast.Tuple, ast.List)):
+                if isinstance(v, (ast.Tuple, ast.List)) and len(v.elts) == len(t.elts) and all(isinstance(x, ast.Name) for x in t.elts):
+                    for x, xv in zip(t.elts, v.elts):  # a, b = e1, e2: element-wise
+                        (good if _fresh_expr(xv) else bad).add(x.id)
+                    continue
                 for x in ast.walk(t):
                     if isinstance(x, ast.Name):
                         bad.add(x.id)
